@@ -31,6 +31,9 @@ Square == [kind |-> "poly", name |-> "square", radial |-> <<U, U, U, U>>,
            verts |-> << <<0, U>>, <<U, 0>>, <<0, -U>>, <<-U, 0>> >>, renc |-> U]
 Kite == [kind |-> "poly", name |-> "kite", radial |-> <<U, U \div 2, U, U \div 2>>,
          verts |-> << <<0, U>>, <<U \div 2, 0>>, <<0, -U>>, <<-(U \div 2), 0>> >>, renc |-> U]
+\* a quadrilateral without any mirror line (radial 1, 0.5, 0.8, 0.3): handedness matters
+Quad == [kind |-> "poly", name |-> "quad", radial |-> <<U, U \div 2, (4 * U) \div 5, (3 * U) \div 10>>,
+         verts |-> << <<0, U>>, <<U \div 2, 0>>, <<0, -((4 * U) \div 5)>>, <<-((3 * U) \div 10), 0>> >>, renc |-> U]
 Circle == [kind |-> "discs", name |-> "circle", discs |-> << <<0, 0, U>> >>, renc |-> U]
 \* from_trimer(radius = r/U, angle = 180, distance = d/U): three discs in a row
 Trimer(r, d) == [kind |-> "discs", name |-> "trimer", r |-> r, d |-> d,
